@@ -350,6 +350,54 @@ def results_follow_particle(facts, res, R="C13.6.results-follow-the-particle", c
     return nctor
 
 
+def tsm_forward(facts, res):
+    """C13.4.tsm: the target/source rebuild rebuilds both member trees, unconditionally, through the parameterless rebuild() - or, when it
+    hands a staging array to an overload, one whose extent is exactly that tree's particle count (the rebuild takes the count from it)"""
+    t = facts.fn("TbfTreeTsm::rebuild")
+    tt = facts.ntext(tbf.body(t))
+    res.instance("C13.4.tsm", "TbfTreeTsm::rebuild", facts.loc(t), tt)
+    # both member trees are rebuilt, unconditionally: rebuild() is also what resets every cell expansion to zero, so a tree that is
+    # "skipped because nothing moved" keeps the multipoles / locals of the previous execution and the next one adds to them
+    tb = tbf.body(t)
+    tbf.link_parents(tb)
+    tree_members = [fl["name"] for fl in facts.cls("TbfTreeTsm")["fields"] if "TreeClass" in fl.get("t", "") or fl["name"].startswith("tree")]
+    calls = {}
+    for x in walk(tb):
+        if x.get("k") in ("CallExpr", "CXXMemberCallExpr") and tbf.callee_name(x) == "rebuild" and tbf.call_base(x) is not None:
+            b0 = strip(tbf.call_base(x))
+            if b0.get("k") in ("MemberExpr", "CXXDependentScopeMemberExpr") and b0.get("name") in tree_members:
+                calls.setdefault(b0["name"], []).append(x)
+    if len(tree_members) != 2:
+        raise AnalysisBroken("TbfTreeTsm: %d member trees (2 confirmed by reading)" % len(tree_members))
+    for mname in tree_members:
+        cs = calls.get(mname, [])
+        if not cs:
+            res.violation("C13.4.tsm", tbf.rel(facts.path_of(t)), "TbfTreeTsm::rebuild", "forward:" + mname, t["l"][1], "target/source rebuild does not rebuild '%s'" % mname)
+            continue
+        cond = [a for c_ in cs for a in tbf.ancestors(c_) if a.get("k") in ("IfStmt", "ConditionalOperator", "SwitchStmt", "ForStmt", "WhileStmt")]
+        early = [r for r in walk(tb, into_lambdas=False) if r.get("k") == "ReturnStmt" and r["l"][1] < cs[0]["l"][1]]
+        if cond or early:
+            w = (cond or early)[0]
+            res.violation("C13.4.tsm", tbf.rel(facts.path_of(t)), "TbfTreeTsm::rebuild", "conditional:" + mname, w["l"][1],
+                          "'%s' is rebuilt only under a condition (`%s`): rebuild() is what resets the cell expansions, a tree that is skipped keeps the multipoles / locals of the previous "
+                          "execution and the next execute() adds one more full interaction on top of them" % (mname, facts.ntext(w["c"][0] if w.get("k") == "IfStmt" else w)[:70]))
+    for mname in tree_members:
+        for c_ in calls.get(mname, []):
+            for a_ in tbf.call_args(c_):
+                a0 = strip(a_)
+                dv = [v for v in walk(tb) if v.get("k") == "VarDecl" and v.get("did") == a0.get("did")] if a0.get("k") == "DeclRefExpr" else []
+                if not dv or not kids(dv[0]):
+                    raise AnalysisBroken("%s: argument `%s` of %s.rebuild(...) not understood" % (facts.loc(c_), facts.ntext(a_)[:40], mname))
+                ext = facts.ntext(kids(dv[0])[0])
+                want = re.compile(r"^(\w+\()?%s\.getNbParticles\(\)\)?$" % re.escape(mname))
+                m_ext = re.search(r"\((.*)\)$", ext)
+                inner = m_ext.group(1) if m_ext else ext
+                res.instance("C13.4.tsm", "%s.rebuild(%s)" % (mname, facts.ntext(a_)[:20]), facts.loc(c_), "staging array of extent `%s`" % inner[:60])
+                if not want.match(inner):
+                    res.violation("C13.4.tsm", tbf.rel(facts.path_of(c_)), "TbfTreeTsm::rebuild", "staging-extent:" + mname, c_["l"][1],
+                                  "'%s' is rebuilt from a staging array of extent `%s`, not its own particle count: the rebuild sizes the result staging, sorts and re-creates the groups from the size of that array, so the tree with fewer particles gets the tail of the array as extra particles (zero-initialised or the other tree's)" % (mname, inner[:60]))
+
+
 def run(res, tier):
     facts = tbf.scan("core")
     res.units.append("umbrella TU 'core': TbfTree constructor, TbfTree::rebuild, TbfTreeTsm::rebuild")
@@ -358,6 +406,7 @@ def run(res, tier):
     res.rule("C13.3 construction facts of rebuild() (sorter type+args, split argument, emplace_back/parent/index calls with argument origins, conditions, level interval) equal the constructor's")
     res.rule("C13.4 rebuild clears both containers and re-creates every group through the constructors that zero-initialise (C06.1)")
     rebuild = tbf.expand_member_helpers(facts, facts.fn("TbfTree::rebuild"))
+    tsm_forward(facts, res)
     res.rule("C13.7 repeated cycles in periodic mode: the expansions of the virtual levels the top-tree executors keep are zeroed at the head of the stage that recomputes them (multipoles: M2M, locals: M2L) - rebuild() zeroes the cells of the tree only")
     import c12 as _c12
     n7 = 0
@@ -374,7 +423,7 @@ def run(res, tier):
     if len(ctl.violations) != 1 or "rebuildBad" not in ctl.violations[0]["function"]:
         raise AnalysisBroken("positive control fixtures/c13_relabel.cpp: %d of 1 relabelling methods reported" % len(ctl.violations))
     res.instance("C13.6.results-follow-the-particle", "positive control", "verif:fixtures/c13_relabel.cpp", "1 of 1 seeded constructs reported, the one that writes both silent")
-    relabelled = any(v["rule"].startswith("C13.6") for v in res.violations)
+    relabelled = any(v["rule"].startswith(("C13.6", "C13.4.tsm")) and not tbf.is_known("C13", v, tbf.load_known()) for v in res.violations)
     # 2
     try:
         n = idxdomain.check_function(facts, rebuild, res, "C13.2.gather-scatter")
@@ -461,35 +510,6 @@ def run(res, tier):
             res.violation("C13.4.reset", tbf.rel(facts.path_of(rebuild)), "TbfTree::rebuild", what, rebuild["l"][1], "rebuild does not start from empty containers (%s missing): old expansions would survive" % what)
     res.rule("C13.5 every member the tree fills from its groups outside construction (caches, tables) is reset by rebuild()")
     derived_state(facts, res)
-    # tsm forwards to both trees
-    t = facts.fn("TbfTreeTsm::rebuild")
-    tt = facts.ntext(tbf.body(t))
-    res.instance("C13.4.tsm", "TbfTreeTsm::rebuild", facts.loc(t), tt)
-    # both member trees are rebuilt, unconditionally: rebuild() is also what resets every cell expansion to zero, so a tree that is
-    # "skipped because nothing moved" keeps the multipoles / locals of the previous execution and the next one adds to them
-    tb = tbf.body(t)
-    tbf.link_parents(tb)
-    tree_members = [fl["name"] for fl in facts.cls("TbfTreeTsm")["fields"] if "TreeClass" in fl.get("t", "") or fl["name"].startswith("tree")]
-    calls = {}
-    for x in walk(tb):
-        if x.get("k") in ("CallExpr", "CXXMemberCallExpr") and tbf.callee_name(x) == "rebuild" and tbf.call_base(x) is not None:
-            b0 = strip(tbf.call_base(x))
-            if b0.get("k") in ("MemberExpr", "CXXDependentScopeMemberExpr") and b0.get("name") in tree_members:
-                calls.setdefault(b0["name"], []).append(x)
-    if len(tree_members) != 2:
-        raise AnalysisBroken("TbfTreeTsm: %d member trees (2 confirmed by reading)" % len(tree_members))
-    for mname in tree_members:
-        cs = calls.get(mname, [])
-        if not cs:
-            res.violation("C13.4.tsm", tbf.rel(facts.path_of(t)), "TbfTreeTsm::rebuild", "forward:" + mname, t["l"][1], "target/source rebuild does not rebuild '%s'" % mname)
-            continue
-        cond = [a for c_ in cs for a in tbf.ancestors(c_) if a.get("k") in ("IfStmt", "ConditionalOperator", "SwitchStmt", "ForStmt", "WhileStmt")]
-        early = [r for r in walk(tb, into_lambdas=False) if r.get("k") == "ReturnStmt" and r["l"][1] < cs[0]["l"][1]]
-        if cond or early:
-            w = (cond or early)[0]
-            res.violation("C13.4.tsm", tbf.rel(facts.path_of(t)), "TbfTreeTsm::rebuild", "conditional:" + mname, w["l"][1],
-                          "'%s' is rebuilt only under a condition (`%s`): rebuild() is what resets the cell expansions, a tree that is skipped keeps the multipoles / locals of the previous "
-                          "execution and the next execute() adds one more full interaction on top of them" % (mname, facts.ntext(w["c"][0] if w.get("k") == "IfStmt" else w)[:70]))
     # 1
     for comp in (("g++",) if tier == "quick" else ("g++", "clang++")):
         rc, err = tbf.compile_witness(REBUILD_TU, compiler=comp, name="c13_rebuild.cpp", max_errors=5)
